@@ -41,6 +41,18 @@ def to_coq(seq):
     return "[" + "; ".join(o[0] if len(o) == 1 else "%s %s" % (o[0], " ".join(map(str, o[1:]))) for o in seq) + "]"
 
 
+def parse_driver_input(line):
+    names = {v: k for k, v in CODES.items()}
+    arity = {"Grow": 1, "Root": 1, "RootConst": 1, "Union": 2, "Len": 0, "NewEl": 0, "EquateOp": 2, "AddWeight": 2,
+             "SubWeight": 2, "AreEqual": 2, "RootEl": 1}
+    toks, seq, i = [int(t) for t in line.split()], [], 0
+    while i < len(toks):
+        n = names[toks[i]]
+        seq.append((n,) + tuple(toks[i + 1:i + 1 + arity[n]]))
+        i += 1 + arity[n]
+    return seq
+
+
 # ------------------------------------------------------------------------------------ transcription check
 
 def extract_fn(text, name):
@@ -142,8 +154,10 @@ def transcription_check(ctx, scratch):
                        (", ".join(FUNCS), "" if tname == "el" else ", Foo->El") if not bad else
                        "differs in: %s" % ", ".join(bad))
         for k in bad:
-            ctx.broken.append("transcription drift: generated `%s` differs from harness/uf-driver/src/main.rs: generated=%s | driver=%s"
-                              % (k, norm_ws(gen[k] or "<missing>")[:200], drv_n[k][:200]))
+            g = norm_ws(gen[k] or "<missing>")
+            at = next((i for i, (x, y) in enumerate(zip(g, drv_n[k])) if x != y), min(len(g), len(drv_n[k])))
+            ctx.broken.append("transcription drift: generated `%s` differs from harness/uf-driver/src/main.rs at char %d: generated "
+                              "...%s... | driver ...%s..." % (k, at, g[max(0, at - 40):at + 60], drv_n[k][max(0, at - 40):at + 60]))
     # (2) every sort of every repository theory: how far does the transcription reach?
     files = {}
     for p in sorted(os.listdir(os.path.join(REPO, "eqlog-test-eval", "src"))):
@@ -559,6 +573,11 @@ def run(ctx):
     api_half(ctx)
 
     seqs, n_exh, suites, (nrand, n_el, length) = gen_sequences(ctx)
+    if getattr(ctx, "replay", None):
+        import json
+        rp = json.load(open(ctx.replay))
+        if "driver_input" in rp:
+            seqs, n_exh = [parse_driver_input(rp["driver_input"])], 1
     ctx.cov["rule"] = ("exhaustive suites %s; plus %d random sequences: 4/5 of length %d over <=%d elements, 1/5 of length 120 "
                        "over <=40 elements, in four modes (generated-API only x2: NewEl/EquateOp/AddWeight/SubWeight/AreEqual/"
                        "RootEl/Root/RootConst/Len; runtime only: Grow/Root/RootConst/Union/Len; mixed), ~1%% risky ops "
@@ -600,6 +619,8 @@ def run(ctx):
     ctx.cov["class_merges"] = merges_total
     ctx.cov["max_class_size_at_end"] = maxclass
     k = n_exh + 1 if len(seqs) > n_exh + 1 else 0
+    if not seqs[k]:
+        k = len(seqs) - 1
     ctx.sample({"ops": to_coq(seqs[k][:14]) + (" ..." if len(seqs[k]) > 14 else ""),
                 "impl_last_entry": str(impl[k][-1] if impl[k] else "")[:200]})
 
